@@ -229,6 +229,9 @@ func cmdCheck(args []string) int {
 	if err != nil {
 		return fail("cannot load packages: " + err.Error())
 	}
+	if st := prog.staleHeaders(); len(st) > 0 {
+		return fail("contract headers name no function or method of a loaded package (stale contract header): " + strings.Join(st, "; "))
+	}
 	prog.computeWriteSets()
 	loadS := time.Since(start).Seconds()
 
